@@ -12,6 +12,10 @@ Update == /\ More /\ Ev.op = "update"
           /\ ChkB("past", Close(Past', Ev.past), <<Past', Ev.past>>)
           /\ ChkB("overall", Close(Overall', Ev.overall), <<Overall', Ev.overall>>)
           /\ Adv
-Next == Update
+Counters == /\ Chk("total", total', Ev.total) /\ Chk("since", since', Ev.since)
+            /\ Chk("state", st', Ev.state) /\ Chk("recs", recs', Ev.recs)
+UserReset == /\ More /\ Ev.op = "reset" /\ Reset /\ Counters /\ Adv
+Refused == /\ More /\ Ev.op = "bad" /\ (UNCHANGED stepdvars \/ PendingReset) /\ Counters /\ Adv
+Next == Update \/ UserReset \/ Refused
 Spec == Init /\ [][Next]_tvars
 ==========================================================================
